@@ -21,11 +21,16 @@ static GLOBAL: talloc::Tracking = talloc::Tracking;
 pub struct Viol {
     pub oracle: &'static str,
     pub msg: String,
+    /// what the allocator reported when the execution that ended with this violation was torn down (an allocator error
+    /// or a block the arena never returned): a second, independent fact about the same history. The engine reports it
+    /// when the running property owns it and does not own `oracle` (otherwise the branch is pruned as foreign and a
+    /// leak that only teardown can show would never be attributed to the property that is about leaks).
+    pub also: Option<Box<Viol>>,
 }
 
 impl Viol {
     pub fn new(oracle: &'static str, msg: impl Into<String>) -> Viol {
-        Viol { oracle, msg: msg.into() }
+        Viol { oracle, msg: msg.into(), also: None }
     }
 }
 
